@@ -1,25 +1,25 @@
-\* breadth-first, two transactions, every event order (checks/c18.py generates the cfgs it runs;
-\* this one is the hand-runnable default)
+\* hand-runnable default (= Bfs_small of checks/c18.py, which generates the cfgs it runs):
+\*   java -cp tla2tools.jar:CommunityModules-deps.jar tlc2.TLC -workers 8 -config MC_Migration.cfg MC_Migration.tla
 SPECIFICATION Spec
 CONSTANTS
-  N = 2
   AnchorDepth = 10
+  FarEst = 45
   SimMode = FALSE
   Emit = FALSE
   EmitLevel = 0
-  HSet = {21, 22}
-  FarEst = 45
+  ResetEvery = 15
+  N = 2
+  HSet = {22}
   SchedSet = {21}
-  ExpirySet = {0, 22}
+  ExpirySet = {0, 21}
   BndSet = {10}
   PctSet = {20}
   TolSet = {16}
   CvSet = {1}
   InitSt = {"S"}
   KindSet = {"prep", "xfer"}
-  AnsSet = {"sat", "notyet", "spent"}
+  AnsSet = {"sat", "spent"}
   EstKs = {1, 3}
   MinedSets = "some"
-  ResetEvery = 25
 INVARIANTS NoViolation WellFormed
 CHECK_DEADLOCK FALSE
